@@ -146,7 +146,7 @@ def attributed(proof, kind, tags, pid):
         return False
     if spec == "all":
         return True
-    return kind in spec or (kind == "dfcc_internal" and "safety" in spec)
+    return kind in spec or (kind == "dfcc_internal" and ("safety" in spec or "assigns" in spec))
 
 
 # ------------------------------------------------------------------------------------------
@@ -381,9 +381,14 @@ def run_proof(proof, tier, keep=False, backend=None):
             if ob["status"] == "FAILURE":
                 tr = trace_for(proof, gb, tmp, log, ob["name"], backend=backend)
                 ob["inputs"] = trace_inputs(tr)
+        hard = [ob for ob in fails if ob["status"] == "FAILURE"]
         for ob in fails:
-            if ob["status"] not in ("FAILURE",):
+            # UNKNOWN: CBMC could not decide the obligation independently of an earlier failed one
+            # (DFCC checks are assert-then-assume).  Alone it is undecided; next to a FAILURE it is dropped.
+            if ob["status"] != "FAILURE" and not hard:
                 raise Undecided("obligation %s has status %s" % (ob["name"], ob["status"]))
+        if hard:
+            res["obligations"] = [ob for ob in res["obligations"] if ob["status"] in ("SUCCESS", "FAILURE")]
     except Undecided as e:
         res["undecided"] = str(e)
     except Exception as e:  # tool/driver crash is never a violation
